@@ -9,6 +9,7 @@ set_option linter.unusedSimpArgs false
 
 namespace Zeno.Repl
 
+set_option maxHeartbeats 4000000 in
 theorem inv_connect {cx : Ctx} {s s' : State} (hi : Inv cx s) (l : LId) (f : FId)
     (h : step cx s (.connect l f) = some s') : Inv cx s' := by
   simp only [step] at h
@@ -18,8 +19,16 @@ theorem inv_connect {cx : Ctx} {s s' : State} (hi : Inv cx s) (l : LId) (f : FId
     inv_fields hi
     constructor
     all_goals (intros; try grind [List.Pairwise.nil, inflightFrom])
+    case linkCover =>
+      rename_i l1 f1 t sp hlk hs e he hw hp hle
+      simp only [] at hlk hs he hp ⊢
+      by_cases hc : l1 = l ∧ f1 = f
+      · simp [hc] at hlk
+      · simp only [hc, if_false] at hlk ⊢
+        exact hi.linkCover _ _ _ _ hlk hs e he hw hp hle
   · cases h
 
+set_option maxHeartbeats 4000000 in
 theorem inv_msgdone {cx : Ctx} {s s' : State} (hi : Inv cx s) (f : FId) (l : LId) (o : Nat)
     (h : step cx s (.msgdone f l o) = some s') : Inv cx s' := by
   simp only [step] at h
@@ -49,20 +58,34 @@ theorem inv_msgdone {cx : Ctx} {s s' : State} (hi : Inv cx s) (f : FId) (l : LId
     · cases h
   · cases h
 
+set_option maxHeartbeats 4000000 in
 theorem inv_startFollower {cx : Ctx} (hg : Good cx) {s s' : State} (hi : Inv cx s) (f : FId)
     (h : step cx s (.startFollower f) = some s') : Inv cx s' := by
   simp only [step] at h
   split at h
   · simp only [Option.some.injEq] at h
     subst h
+    -- what the table resumes from: per-source maximum of the two offset records
+    have hrec : ∀ t l, recOff cx s f t l = max (s.offFile f t l) (s.diskOff f t l) := by
+      intro t l
+      simp [recOff, hg.2]
+    have hrx := fun (t : TId) (l : LId) => hi.recExact f t l
+    have hrtop : ∀ t l, recOff cx s f t l ≤ top (s.wal l) := by
+      intro t l
+      rw [hrec]
+      have := hi.offTop f t l
+      have := hi.diskTop f t l
+      omega
+    have hE := fun (l : LId) (t : TId) (ht : t ∈ cx.tables) =>
+      earliestOf_le hg (fun t => recOff cx s f t l) ht
+    have hB := fun (l : LId) => earliestOf_le_bound (cx := cx) (fun t => recOff cx s f t l) (b := top (s.wal l))
+      (fun t => hrtop t l)
     inv_fields hi
-    have hE := fun (off : TId → Nat) (t : TId) (ht : t ∈ cx.tables) => earliestOf_le hg off ht
-    have hB := fun (l : LId) => earliestOf_le_bound (cx := cx) (fun t => s.diskOff f t l) (b := top (s.wal l))
-      (fun t => hi.diskTop f t l)
     constructor
     all_goals (intros; try grind [List.Pairwise.nil])
   · cases h
 
+set_option maxHeartbeats 4000000 in
 theorem inv_insert {cx : Ctx} {s s' : State} (hi : Inv cx s) (l : LId) (e : Entry)
     (h : step cx s (.insert l e) = some s') : Inv cx s' := by
   simp only [step] at h
